@@ -24,6 +24,8 @@ NOOP_AT_ZERO = {"KDAdditiveGaussianNoise", "KDAdditiveGaussianNoise(normalmag)",
                 "KDRandomAdditiveGaussianNoise", "KDThreshold", "KDRandomThreshold", "KDRandomGrayscale", "KDRandomSolarize",
                 "KDSolarize(int)", "KDSolarize(float)"}
 
+NOOP_BASES = {"KDAdditiveGaussianNoise", "KDAdditiveUniformNoise", "KDThreshold", "KDRandomGrayscale", "KDRandomSolarize"}
+
 SCHEDULES = ["default", "linear_dec", "cosine_inc", "const", "custom"]
 
 
@@ -31,6 +33,8 @@ def scalable_names():
     L = C.leaves()
     out = []
     for n, e in sorted(L.items()):
+        if n.startswith("P|"):
+            continue
         try:
             t = e["make"]()
         except Exception:
@@ -103,7 +107,10 @@ class Spec(core.PropSpec):
         if rw.random() < 0.65:
             def leaf(dom=None, keep=False):
                 cand = [n for n in names if (dom is None or L[n]["dom"] == dom) and (L[n]["keep"] or not keep)]
-                return {"t": "leaf", "name": rw.choice(cand)}
+                pick = {"t": "leaf", "name": rw.choice(cand)}
+                if rw.random() < 0.4:
+                    return C.gen_param_leaf(rw, dom, keep, scalable_only=True) or pick
+                return pick
 
             r = rw.random()
             if r < 0.55:
@@ -372,7 +379,7 @@ class Spec(core.PropSpec):
                 if not (min(zero, b) - 1e-9 <= a <= max(zero, b) + 1e-9):
                     out.violate("C15:not-monotone", key.rsplit(".", 1)[0],
                                 f"tree={C.sig(spec)}: {key} is {zero} at 0, {a} at {f_lo}, {b} at {f_hi} (same seed)")
-            if leaf_names and all(n in NOOP_AT_ZERO for n in leaf_names):
+            if leaf_names and all(n in NOOP_AT_ZERO or (n.startswith("P|") and C.base_class(n) in NOOP_BASES) for n in leaf_names):
                 d0 = deep_diff(z[i][0], C.make_input(dom, k))
                 if d0:
                     out.violate("C15:zero-strength-not-identity", site_default if len(leaf_names) > 1 else leaf_names[0],
